@@ -40,6 +40,7 @@ class World:
         self.inv_name = "shared-invariant"
         self.check_inv_at_yield = True
         self.last_snap = {}
+        self.yield_witness = None
 
     def emit(self, *event):
         self.trace.append(tuple(event))
@@ -57,7 +58,9 @@ class World:
         if self.check_inv_at_yield:
             for inv in self.invariants:
                 for i, f in enumerate(inv()):
-                    eng.oblige(f"{self.inv_name}/at-yield", f, kind="yield")
+                    ob = eng.oblige(f"{self.inv_name}/at-yield", f, kind="yield")
+                    if ob.status == "refuted" and self.yield_witness is not None:
+                        ob.witness = dict(self.yield_witness, at=label)
         snaps = [s.snapshot() for s in self.shared]
         for s in self.shared:
             s.havoc(f"y{self.yields}")
@@ -172,3 +175,19 @@ def scan_writes(attr_names, exclude_units=()):
 
             visit(tree, "")
     return out
+
+
+def mutator_closure_harness(prop, label, attrs, allowed):
+    """Obligation '<prop>/mutator-closure/<label>': every syntactic write to the given class-level tables lies in a
+    unit that is under contract (allowed = set of qualified names)."""
+    from pyvc.framework import Harness
+
+    def h(eng):
+        writes = scan_writes(attrs)
+        outside = sorted({(f, q, ln, a) for f, q, ln, a in writes if q not in allowed})
+        eng.cover("scanned")
+        ob = eng.oblige(f"{prop}/mutator-closure/{label}", len(outside) == 0 and len(writes) > 0,
+                        detail={"writes": len(writes), "outside": outside[:10]})
+        if ob.status == "refuted":
+            ob.witness = {"signature": "write-outside-contract", "outside": [list(x) for x in outside[:10]]}
+    return Harness(f"mutator-closure.{label}", h, units=[])
